@@ -31,6 +31,10 @@ def with_comments(p, salt):
         if hsh == 1 and s["k"] not in ("format",):
             line += "  " + COMMENT_TEXTS[(i + salt) % 3]
             n += 1
+        if hsh == 3 and s["k"] not in ("endu",):
+            # an INCLUDE line whose file does not exist is kept as an Include_Stmt node
+            lines.append(("  " * s["d"]) + "include 'nofile%d.inc'" % i)
+            n += 1
         if hsh == 2:
             lines.append("#ifdef FOO%d" % i)
             lines.append(line)
